@@ -72,7 +72,13 @@ class Harness:
         if 'uda' in self.groups:
             tm.items.append([UDA_KEYS[c.choose(len(UDA_KEYS), 'uda')], 'v'])
         tasks.items.append([A, tm])
-        tasks.items.append([B, PyMap([['status', 'pending'], ['description', 'other']])])
+        # the other task (dependency target / working-set neighbour): pending, without a status, completed, or missing
+        bshape = ['pending', 'no-status', 'completed', 'missing'][c.choose(4, 'other-task')] if 'dep' in self.groups else 'pending'
+        if bshape != 'missing':
+            bm = PyMap([['description', 'other']])
+            if bshape != 'no-status':
+                bm.items.append(['status', bshape])
+            tasks.items.append([B, bm])
         ws = w.working_set_of(w.db)
         if c.choose(2, 'in-working-set'):
             ws.items.append(Some(A))
@@ -80,7 +86,7 @@ class Harness:
 
         def wit(m):
             return {'task': {show(k if not isinstance(k, SegStr) else concrete_key(k, m), m): (conc(v, m)) for k, v in tm.items},
-                    'working_set': [x.fields[0] if x.variant else None for x in ws.items], 'now': show(now, m)}
+                    'working_set': [x.fields[0] if x.variant else None for x in ws.items], 'now': show(now, m), 'other': bshape}
         called = []
 
         def guard(name, thunk):
@@ -213,7 +219,7 @@ def configs(tier):
                 dict(name='tag+annotation', factory=lambda: Harness('ta', ('tag', 'annotation')),
                      bounds='one tag_ key out of 12 suffixes and one annotation_ key whose suffix is a symbolic integer or an edge string'),
                 dict(name='dep+uda', factory=lambda: Harness('du', ('dep', 'uda')),
-                     bounds='one dep_ key out of 9 suffixes (valid / simple / upper-case / malformed uuid) and one UDA key out of 9')]
+                     bounds='one dep_ key out of 9 suffixes (valid / simple / upper-case / malformed uuid), the target task pending / without status / completed / missing, and one UDA key out of 9')]
     return [dict(name='all-groups', factory=lambda: Harness('all', ('status', 'time', 'tag', 'annotation', 'dep', 'uda')),
                  bounds='one entry of every group at once', time_limit_s=3300)]
 
